@@ -274,7 +274,14 @@ def _raster_pass(ctx, case, tmp, tree, pid, tf, res_arg, prefix):
         cmax = np.ceil((X + R[:, None]).max(0)) + rng.integers(0, 3, 3)
         if case["ranges"] == "crop":  # a window cutting through the tree
             cmax = cmin + np.maximum(np.ceil((cmax - cmin) * 0.6), np.ceil(st) + 1)
-        kw = {"ranges": (cmin.copy(), cmax.copy())}
+        # the caller's own range arrays (often float32, like tree.xyz()), reused between calls:
+        # they are read, never written
+        if case["seed"] % 2:
+            rng_lo, rng_hi = cmin.astype(np.float32), cmax.astype(np.float32)
+        else:
+            rng_lo, rng_hi = cmin.copy(), cmax.copy()
+        keep_lo, keep_hi = rng_lo.copy(), rng_hi.copy()
+        kw = {"ranges": (rng_lo, rng_hi)}
         ctx.count("raster_explicit_ranges")
     if ((cmax - cmin) < st).any():
         ctx.skip("bounding box thinner than one voxel")
@@ -294,7 +301,15 @@ def _raster_pass(ctx, case, tmp, tree, pid, tf, res_arg, prefix):
         return
     try:
         if kw:
-            img = np.stack(list(tf.transform(tree, verbose=False, **kw)), axis=0)
+            first = np.stack(list(tf.transform(tree, verbose=False, **kw)), axis=0)
+            img = np.stack(list(tf.transform(tree, verbose=False, **kw)), axis=0)  # same arrays again
+            if not (np.array_equal(rng_lo, keep_lo) and np.array_equal(rng_hi, keep_hi)):
+                return ctx.violation("caller-ranges-mutated", f"{prefix}transform(ranges=...) wrote "
+                                                              f"into the caller's range arrays", case)
+            if first.shape != img.shape or not np.array_equal(first, img):
+                return ctx.violation("call-history-dependence",
+                                     f"{prefix}the same ranges gave shape {first.shape} first and "
+                                     f"{img.shape} on the second call", case)
         else:
             img = tf(tree)
     except BaseException as e:  # pyo3 PanicException derives from BaseException
